@@ -10,6 +10,8 @@ package main
 //   board-concurrent     K goroutines run the real HandleGetMsgs / HandleTranOldPostNews at once; linearisability monitor
 //   board-forced         the same through a gating store that holds one client inside its operation while the others start
 //   agreement-concurrent real logins (handleNewConnection) and ReadAgreement calls at once, free and forced
+//   post-fault           the persist step is made to fail (directory at MessageBoard.txt.tmp / failing store): acknowledged ⇒ on disk
+//   board-reload         posters and readers through the real handlers while the operator's FlatNews.Reload loops: no post lost
 
 import (
 	"bytes"
@@ -135,6 +137,7 @@ type gate struct {
 	mu         sync.Mutex
 	log        []gateEv
 	pauseAfter map[int]bool
+	failWrites atomic.Bool // fault injection: Write reports an error without reaching the real store
 	holding    bool
 	held       chan int
 	release    chan struct{}
@@ -196,6 +199,9 @@ func (g *gate) Read(p []byte) (int, error) {
 }
 
 func (g *gate) Write(p []byte) (int, error) {
+	if g.failWrites.Load() {
+		return 0, fmt.Errorf("injected fault: no space left on device")
+	}
 	g.mu.Lock()
 	n, err := g.wr.Write(p)
 	hold, k := g.record(gateEv{Kind: 'w', Arg: len(p), Data: append([]byte{}, p...)})
@@ -597,11 +603,12 @@ func init() {
 		x.rule = "post-format: random template/date format (default and custom), names and bodies with \\n, \\r, NUL, high bytes, 1-4 connected clients, 1-4 posts interleaved with gets, board up to the 64 KiB field limit; distinct = (config, name, body, board size). " +
 			"store-raw: random Seek/Read/Write scripts on the real FlatNews/Agreement; distinct = script. " +
 			"board-concurrent / board-forced / agreement-concurrent: 2-8 (thorough: up to 48) clients with 1-3 operations each on boards of 0..64 KiB (biased to sizes over 512 where io.ReadAll needs several Reads), run at once through the real handlers; forced = one client is held inside its operation by a gating store after its 1st..4th store call while the others start; " +
+			"post-fault: 1-3 clients; the persist step fails for a chosen post either because a directory sits at MessageBoard.txt.tmp (real FlatNews.Write error path) or because a wrapping store's Write fails; before and after it posts succeed; distinct = (fault kind, position, body, board size). board-reload: 2-4 posters x 2-4 posts and 0-2 readers through the real handlers while 1-3 goroutines loop (*FlatNews).Reload on boards of 8..60 KiB; non-trivial = at least one reload completed while a post was in flight. " +
 			"non-trivial = at least two operations overlapped in real time (measured with a logical clock) resp. a hold took place with other clients started; distinct = (board size, operation plan, hold point)"
 		x.assume = []string{
 			"each server-level operation is one critical section: tied to the source by the lock_discipline / critical_sections / no_access_outside_critical_sections obligations over regenerated facts, and observed by the gating store (no call of another client between a Seek and its EOF)",
 			"io.ReadAll buffer sizes are inputs of the model (recorded from the real run)",
-			"SIGHUP reload of the stores while clients read is not modelled",
+			"operator reload (FlatNews.Reload) is modelled as one step under the store's lock (obligation store_methods_locked) and run concurrently with posters and readers in the board-reload family; Agreement.Reload with a CHANGED file while clients read is not covered",
 		}
 		thor := x.Tier == "thorough"
 
@@ -623,6 +630,8 @@ func init() {
 			c19BoardRun(c, k, nil)
 		}})
 		x.Add(&Family{Name: "agreement-concurrent", Quick: 200, Thor: 2000, Run: func(c *Case) { c19Agreement(c, thor) }})
+		x.Add(&Family{Name: "post-fault", Quick: 250, Thor: 4000, Run: func(c *Case) { c19PostFault(c) }})
+		x.Add(&Family{Name: "board-reload", Quick: 120, Thor: 1500, Run: func(c *Case) { c19BoardReload(c, thor) }})
 	}
 }
 
@@ -1219,4 +1228,244 @@ func c19Agreement(c *Case, thor bool) {
 	}
 	c.Dist(fmt.Sprintf("agreement/size<2^%d", bitsLen(len(text))))
 	c.Sample(map[string]any{"family": "agreement-concurrent", "size": len(text), "logins": nLogin, "direct": nDirect, "forced": forced})
+}
+
+// ---------------------------------------------------------------- post-fault
+
+// c19PostFault: the persist step of a post fails.  Judged by the property: a post that is acknowledged (or announced)
+// must be on disk; the model (handlePostF) says a failed persist is neither acknowledged nor announced.
+func c19PostFault(c *Case) {
+	r := c.R
+	initial := c19Text(r, c19BoardSize(r, 20000), false)
+	ts, err := newTS(TSOpt{Direct: true, Board: string(initial)})
+	if err != nil {
+		panic(err)
+	}
+	defer ts.Close()
+	tmpl, dateFmt := c19Template(ts.Srv.Config)
+	g := newGate(ts.Board, ts.Board)
+	ts.Srv.MessageBoard = g
+	filePath := filepath.Join(ts.Cfg, "MessageBoard.txt")
+	tmpPath := filePath + ".tmp"
+	nClients := 1 + r.Intn(3)
+	var clients []*hotline.ClientConn
+	for i := 0; i < nClients; i++ {
+		cc, _ := ts.DirectClient("admin", []byte(fmt.Sprintf("u%d-%s", i, r.Name(6))), fmt.Sprintf("10.2.0.%d:1000", i+1))
+		clients = append(clients, cc)
+	}
+	faultKind := r.Pick(0, 0, 1) // 0 = directory at the temp name (real store fails), 1 = failing wrapping store
+	nPosts := 2 + r.Intn(3)
+	faultAt := r.Intn(nPosts)
+	c.Note("fault_kind", map[int]string{0: "directory at MessageBoard.txt.tmp", 1: "wrapping store Write fails"}[faultKind])
+	c.Note("fault_at_post", faultAt)
+	c.Note("posts", nPosts)
+	for i := 0; i < nPosts; i++ {
+		cc := clients[r.Intn(len(clients))]
+		body := append([]byte(fmt.Sprintf("[f%d]", i)), c19Text(r, r.Pick(0, 5, 60, 900), true)...)
+		fault := i == faultAt
+		if fault {
+			if faultKind == 0 {
+				os.Remove(tmpPath)
+				if err := os.Mkdir(tmpPath, 0755); err != nil {
+					panic(err)
+				}
+			} else {
+				g.failWrites.Store(true)
+			}
+		}
+		fileBefore, _ := os.ReadFile(filePath)
+		// what is being served (after a failed persist the store's memory keeps the unacknowledged text)
+		var memBefore []byte
+		if gr, _, _ := ts.Call(cc, mkTran(hotline.TranGetMsgs, 8)); len(gr) == 1 && len(gr[0].Fields) == 1 {
+			memBefore = gr[0].Fields[0].Data
+		}
+		ts.TakeOutbox()
+		res, queued, p := ts.Call(cc, mkTran(hotline.TranOldPostNews, uint32(300+i), fld(hotline.FieldData, body)))
+		time.Sleep(2 * time.Millisecond)
+		queued = append(queued, ts.TakeOutbox()...)
+		fileAfter, ferr := os.ReadFile(filePath)
+		if fault {
+			if faultKind == 0 {
+				os.Remove(tmpPath)
+			} else {
+				g.failWrites.Store(false)
+			}
+		}
+		if p != nil {
+			c.Note("panic", fmt.Sprint(p))
+			c.Violation("post-panics", "posting to the message board panicked")
+			return
+		}
+		acked := len(res) == 1 && res[0].IsReply == 1 && res[0].ErrorCode == [4]byte{}
+		announced := 0
+		var announcedText []byte
+		for _, t := range queued {
+			if t.Type == hotline.TranNewMsg {
+				announced++
+				if len(t.Fields) == 1 {
+					announcedText = t.Fields[0].Data
+				}
+			}
+		}
+		// is the post on disk?  (the file must start with a post by this user with this body and still end with the old file)
+		n, date, onDisk := c19MatchPost(fileAfter, tmpl, dateFmt, cc.UserName, body)
+		onDisk = onDisk && ferr == nil && bytes.HasSuffix(fileAfter[n:], fileBefore)
+		c.Note("post_index", i)
+		c.Note("fault_injected", fault)
+		c.Note("acknowledged", acked)
+		c.Note("announced_to", announced)
+		c.Note("on_disk", onDisk)
+		if (acked || announced > 0) && !onDisk {
+			c.Note("file_after", short(fileAfter))
+			c.Note("announced_text", short(announcedText))
+			c.Violation("acknowledged-post-not-on-disk", "a post was acknowledged to the poster / announced to the users although MessageBoard.txt does not hold it (the persist step had failed): it is lost at the next restart")
+			return
+		}
+		if !fault && !acked {
+			c.Violation("post-not-acknowledged", "a post by a user allowed to post got no plain reply although nothing prevented persisting it")
+			return
+		}
+		// model: outcome of the handler given the outcome of the persist step
+		ok := "1"
+		if !onDisk {
+			ok = "0"
+			date = ""
+		}
+		want := c.AskS("c19postf", ok, fmt.Sprint(nClients), hx([]byte(tmpl)), hx(cc.UserName), hx([]byte(date)), hx(body), hx(memBefore), hx(fileBefore))
+		ackedN := 0
+		if acked {
+			ackedN = 1
+		}
+		c.Corr("handlePostF", fmt.Sprintf("acked=%d notes=%d file=%s", ackedN, announced, c19Digest(fileAfter)), want, false)
+		if fault {
+			c.Nontrivial(fmt.Sprintf("%d|%d|%d|%x|%d", faultKind, faultAt, nPosts, body, len(initial)))
+			c.Dist(fmt.Sprintf("post-fault/kind=%d/acked=%v", faultKind, acked))
+		}
+	}
+	// at rest: what is served contains everything the file holds, and every acknowledged post is in both
+	file, _ := os.ReadFile(filePath)
+	re, err := mobius.NewFlatNews(filePath)
+	if err != nil {
+		c.Violation("board-reload", "MessageBoard.txt cannot be loaded after a failed and a successful post: "+err.Error())
+		return
+	}
+	re.Seek(0, 0)
+	reb, _ := io.ReadAll(re)
+	if !bytes.Equal(reb, file) {
+		c.Violation("board-reload", "after a restart the board differs from MessageBoard.txt")
+	}
+	c.Sample(map[string]any{"family": "post-fault", "fault": faultKind, "at": faultAt, "posts": nPosts})
+}
+
+// ---------------------------------------------------------------- board-reload
+
+// c19BoardReload: posters and readers through the real handlers while the operator's reload (what SIGHUP / the API
+// call run: (*mobius.FlatNews).Reload) loops.  Every acknowledged post must be on the served board and in the file.
+func c19BoardReload(c *Case, thor bool) {
+	r := c.R
+	k := 2 + r.Intn(3)
+	plan := c19MakePlan(r, k, 4, 1000, 75)
+	plan.initial = c19Text(r, 8000+r.Intn(52000-8000), false)
+	posts := 0
+	for _, o := range plan.ops {
+		if o.Post {
+			posts++
+		}
+	}
+	if posts == 0 {
+		plan.ops[0].Post = true
+		plan.ops[0].Body = []byte("[c0-x]only")
+	}
+	ts, err := newTS(TSOpt{Direct: true, Board: string(plan.initial)})
+	if err != nil {
+		panic(err)
+	}
+	defer ts.Close()
+	tmpl, dateFmt := c19Template(ts.Srv.Config)
+	var clients []*hotline.ClientConn
+	for i := 0; i < k; i++ {
+		cc, _ := ts.DirectClient("admin", plan.names[i], fmt.Sprintf("10.3.0.%d:2000", i+1))
+		clients = append(clients, cc)
+	}
+	perClient := make([][]*c19Op, k)
+	for _, o := range plan.ops {
+		perClient[o.Client] = append(perClient[o.Client], o)
+	}
+	nReload := 1 + r.Intn(3)
+	c.Note("initial_len", len(plan.initial))
+	c.Note("plan", fmt.Sprint(plan.ops))
+	c.Note("reloaders", nReload)
+	stop := make(chan struct{})
+	var reloads, reloadErrs atomic.Int64
+	var rwg sync.WaitGroup
+	for i := 0; i < nReload; i++ {
+		rwg.Add(1)
+		go func() {
+			defer rwg.Done()
+			for {
+				select {
+				case <-stop:
+					return
+				default:
+				}
+				if err := ts.Board.Reload(); err != nil {
+					reloadErrs.Add(1)
+				}
+				reloads.Add(1)
+			}
+		}()
+	}
+	// let the reloaders spin up, then start the clients together
+	waitFor(time.Second, func() bool { return reloads.Load() >= int64(nReload) })
+	start := make(chan struct{})
+	var wg sync.WaitGroup
+	before := reloads.Load()
+	for i := 0; i < k; i++ {
+		wg.Add(1)
+		go func(i int) {
+			defer wg.Done()
+			<-start
+			for j, o := range perClient[i] {
+				c19RunOp(ts, clients[i], o, uint32(i*16+j))
+			}
+		}(i)
+	}
+	close(start)
+	wg.Wait()
+	during := reloads.Load() - before
+	close(stop)
+	rwg.Wait()
+	c.Note("reloads_during_run", during)
+	if n := reloadErrs.Load(); n > 0 {
+		c.Note("reload_errors", n)
+		c.Violation("reload-fails", "the operator's reload of the message board failed while clients were posting (the file was missing or unreadable at some instant)")
+	}
+	fin := &c19Op{}
+	c19RunOp(ts, clients[0], fin, 9999)
+	file, _ := os.ReadFile(filepath.Join(ts.Cfg, "MessageBoard.txt"))
+	if !fin.replyOK {
+		c.Violation("get-messages-reply", "get-messages did not return one reply with the data field")
+		return
+	}
+	initial := c19nl2cr(plan.initial)
+	order, ok := c19Linearise(c, tmpl, dateFmt, initial, fin.data, plan.ops)
+	if !bytes.Equal(file, fin.data) {
+		c.Note("file", short(file))
+		c.Note("board", short(fin.data))
+		c.Note("file_len", len(file))
+		c.Note("board_len", len(fin.data))
+		c.Violation("file-differs-from-board", "with no operation in flight MessageBoard.txt differs from the board being served (an operator reload overlapped a post)")
+		ok = false
+	}
+	if order != nil {
+		c19CheckNotifications(c, ts, clients, order)
+	}
+	if ok && order != nil {
+		c19ModelSchedule(c, initial, fin.data, file, plan.ops, order)
+	}
+	if during > 0 {
+		c.Nontrivial(c19PlanCanon(plan) + fmt.Sprint(nReload))
+	}
+	c.Dist(fmt.Sprintf("board-reload/reloaders=%d", nReload))
+	c.Sample(map[string]any{"family": "board-reload", "clients": k, "ops": len(plan.ops), "board": len(initial), "reloads_during_run": during})
 }
